@@ -130,11 +130,6 @@ def specTernary (s : Shape) (cpp : Bool) (t1 t2 : CT) : CT :=
 
 /-! ## Integer literals: C17 6.4.4.1p5 / C++17 [lex.icon] table 7 -/
 
-/-- how the literal is spelled; binary literals go with hexadecimal ("octal or hexadecimal constant" column) -/
-inductive Base
-  | dec | oct | hex
-  deriving DecidableEq, Repr, Inhabited
-
 /-- the type of an integer literal: the first type of the list selected by base and suffix in which the value can be
     represented; `none`: no type of the list can (the program is ill-formed or uses an extended type).
     `imax lmax llmax` = INT_MAX, LONG_MAX, LLONG_MAX; the unsigned maxima are `2*max+1`. -/
@@ -193,5 +188,108 @@ def sameVType (t1 t2 : CT) : Bool := (declVT t1).type == (declVT t2).type
 /-- K3: the expression is boolean-valued (`a < b`, `a && b`, `!a` …); the code types it `bool` in both languages,
     C gives `int` -/
 def boolValued (op : BinOp) : Bool := op.cls == .cmp || op.cls == .logical
+
+/-! ## Expression trees: the language's type of a nested expression and the deviation class of each node -/
+
+def imaxOf (P : Plat) : Nat := maxValue (P.charBit * P.sizeofInt)
+def lmaxOf (P : Plat) : Nat := maxValue (P.charBit * P.sizeofLong)
+def llmaxOf (P : Plat) : Nat := maxValue (P.charBit * P.sizeofLongLong)
+
+/-- the type the language gives the expression (6.5.x applied bottom-up).  Meaningful for trees accepted by `ok`; a
+    literal without a type counts as `int` here and is rejected by `ok`. -/
+def specOf (P : Plat) (cpp : Bool) : Expr → CT
+  | .var t => t
+  | .lit base us longs value => (litSpec (imaxOf P) (lmaxOf P) (llmaxOf P) base us longs value).getD .int
+  | .un op e => specUn P.shape cpp op (specOf P cpp e)
+  | .bin op a b => specBin P.shape cpp op (specOf P cpp a) (specOf P cpp b)
+  | .tern _ a b => specTernary P.shape cpp (specOf P cpp a) (specOf P cpp b)
+  | .cast t _ => t
+
+/-- what is the matter with one node, given the language types of its operands -/
+inductive NodeClass
+  | fine | illTyped | k1 | k2 | k3 | k4 | k5 | k6
+  deriving DecidableEq, Repr, Inhabited
+
+def NodeClass.str : NodeClass → String
+  | .fine => "fine" | .illTyped => "illtyped" | .k1 => "k1" | .k2 => "k2" | .k3 => "k3" | .k4 => "k4" | .k5 => "k5" | .k6 => "k6"
+
+/-- UAC-governed node (`+ - * / % & | ^`, `?:` on different `ValueType::Type`s) -/
+def uacClass (s : Shape) (t1 t2 : CT) : NodeClass :=
+  if promotesToUnsigned s t1 || promotesToUnsigned s t2 then .k2
+  else if sameSizeDifferentRankMixedSign s t1 t2 then .k1
+  else .fine
+
+def binClass (s : Shape) (cpp : Bool) (op : BinOp) (t1 t2 : CT) : NodeClass :=
+  if !wellTypedBin op t1 t2 then .illTyped
+  else match op.cls with
+    | .arith | .bit => uacClass s t1 t2
+    | .shift => if promotesToUnsigned s t1 then .k2 else .fine
+    | .cmp | .logical => if cpp then .fine else .k3
+    | .assign => .fine
+
+def unClass (s : Shape) (cpp : Bool) (op : UnOp) (t : CT) : NodeClass :=
+  if !wellTypedUn op t then .illTyped
+  else match op with
+    | .neg | .bnot => if promotesToUnsigned s t then .k2 else .fine
+    | .lnot => if cpp then .fine else .k3
+    | _ => if belowInt t then .k4 else .fine
+
+def ternClass (s : Shape) (cpp : Bool) (t1 t2 : CT) : NodeClass :=
+  if sameVType t1 t2 then
+    (if t1 == t2 && (cpp || !belowInt t1) then .fine
+     else if !cpp && t1 == .bool && t2 == .bool then .k3
+     else .k5)
+  else uacClass s t1 t2
+
+def litClass (P : Plat) (base : Base) (us : Bool) (longs value : Nat) : NodeClass :=
+  if decide (longs > 2) || (litSpec (imaxOf P) (lmaxOf P) (llmaxOf P) base us longs value).isNone then .illTyped
+  else if octalAsDecimal (imaxOf P) (lmaxOf P) base us longs value then .k6
+  else .fine
+
+def _root_.Cppcheck.ValueTypeConv.Expr.isVar : Expr → Bool
+  | .var _ => true
+  | _ => false
+
+/-- class of the ROOT node (operands judged by their language types); `++`/`--` and the left side of an assignment
+    need a variable (an lvalue) -/
+def rootClass (P : Plat) (cpp : Bool) : Expr → NodeClass
+  | .var _ => .fine
+  | .lit base us longs value => litClass P base us longs value
+  | .un op e => if op.isIncDec && !e.isVar then .illTyped else unClass P.shape cpp op (specOf P cpp e)
+  | .bin op a b =>
+    if op.cls == .assign && !a.isVar then .illTyped
+    else binClass P.shape cpp op (specOf P cpp a) (specOf P cpp b)
+  | .tern _ a b => ternClass P.shape cpp (specOf P cpp a) (specOf P cpp b)
+  | .cast _ _ => .fine
+
+/-- every node of the tree is well-typed and outside K1..K6 -/
+def ok (P : Plat) (cpp : Bool) : Expr → Bool
+  | .var _ => true
+  | .lit base us longs value => litClass P base us longs value == .fine
+  | .un op e => rootClass P cpp (.un op e) == .fine && ok P cpp e
+  | .bin op a b => rootClass P cpp (.bin op a b) == .fine && ok P cpp a && ok P cpp b
+  | .tern c a b => rootClass P cpp (.tern c a b) == .fine && ok P cpp c && ok P cpp a && ok P cpp b
+  | .cast _ e => ok P cpp e
+
+/-- the class of the first node (post-order: operands before the operator) that is not `fine` -/
+def firstClass (P : Plat) (cpp : Bool) : Expr → NodeClass
+  | .var _ => .fine
+  | .lit base us longs value => litClass P base us longs value
+  | .un op e => match firstClass P cpp e with
+    | .fine => rootClass P cpp (.un op e)
+    | c => c
+  | .bin op a b => match firstClass P cpp a with
+    | .fine => (match firstClass P cpp b with
+      | .fine => rootClass P cpp (.bin op a b)
+      | c => c)
+    | c => c
+  | .tern c a b => match firstClass P cpp c with
+    | .fine => (match firstClass P cpp a with
+      | .fine => (match firstClass P cpp b with
+        | .fine => rootClass P cpp (.tern c a b)
+        | k => k)
+      | k => k)
+    | k => k
+  | .cast _ e => firstClass P cpp e
 
 end Cppcheck.ConvSpec
